@@ -1492,7 +1492,10 @@ def _c07_conc(ctx):
         return [], {}
     # half of them from the flush-versus-index-GC family: the files are at stake when a cycle meets a Flush that rolls over to a new index file
     scen += _conc_scenarios(rng, n // 2, True) + _conc_scenarios(rng, n - n // 2, True, fam_range=(0.4, 0.6))
-    res = run_conc(scen, wd, "c07conc")
+    # a thread that does not reach its next yield point within quiet_ms counts as blocked and the scheduler moves on: on a loaded machine the default of
+    # 25 ms lets a running collector fall behind and the schedule degenerates (nothing overlaps) - here the files are judged, not the timing
+    scen = [t if "quiet_ms=" in t.split("\n")[0] else t.replace("\n", " quiet_ms=250\n", 1) for t in scen]
+    res = run_conc(scen, wd, "c07conc", proc_timeout=180)
     viol, judged, with_gc = [], 0, 0
     for txt, r, raw in res:
         if r is None:
